@@ -202,8 +202,12 @@ pub fn compare(w: &World, chain: &Chain, upto: u64, reg: &Reg) -> Result<(), Mis
     let mut got: HashMap<String, &Value> = HashMap::new();
     for c in &mine {
         let key = format!("{}:{}", c["out_point"]["tx_hash"].as_str().unwrap_or(""), hex_u64(&c["out_point"]["index"]));
-        if got.insert(key.clone(), c).is_some() {
-            return Err(Mismatch { kind: "cell-returned-twice", detail: key });
+        if let Some(prev) = got.insert(key.clone(), c) {
+            // D26: one of the two records was put there by a rollback (restore of a spent cell) with a creation block that
+            // is not after the script's start; indexing never writes such a record
+            let (b1, b2) = (hex_u64(&prev["block_number"]), hex_u64(&c["block_number"]));
+            let kind = if reg.start > 0 && (b1 <= reg.start || b2 <= reg.start) && b1 != b2 { "cell-returned-twice/stale-creation-block-before-script-start" } else { "cell-returned-twice" };
+            return Err(Mismatch { kind, detail: format!("{} recorded in blocks {} and {} (script start {})", key, b1, b2, reg.start) });
         }
     }
     // completeness
